@@ -28,6 +28,14 @@ fn eq_only_self(t: &str, eq: &dyn Fn(&str) -> bool) -> Option<String> {
     let mut flipped: Vec<u8> = t.as_bytes().to_vec();
     if let Some(c) = flipped.last_mut() { *c = if *c == b'a' { b'b' } else if c.is_ascii_digit() { if *c == b'0' { b'1' } else { b'0' } } else { b'a' }; }
     if let Ok(f) = String::from_utf8(flipped) { others.push(f); }
+    // non-ASCII look-alikes: a 2-byte and a 3-byte character in place of each character, and appended
+    let chars: Vec<char> = t.chars().collect();
+    for i in 0..chars.len() {
+        for r in ['\u{f1}', '\u{20ac}'] {
+            let mut c = chars.clone(); c[i] = r; others.push(c.into_iter().collect());
+        }
+    }
+    others.push(format!("{}\u{e9}", t)); others.push(format!("\u{e9}{}", t));
     for o in others.iter() {
         if o != t && eq(o) { return Some(format!("INCONSISTENT == {:?} is true for the subtag {:?}", o, t)); }
     }
@@ -51,6 +59,7 @@ pub fn lang(v: &[u8]) -> String {
         Ok(l) => {
             let t = l.as_str().to_string();
             if let Some(e) = eq_only_self(&t, &|o| l == o) { return e; }
+            if let Some(e) = fmt_flags(&l) { return e; }
             match text3(&t, l.to_string(), l == t.as_str()) {
                 Ok(t) => format!("OK {} {}", t, if l.is_empty() { "empty" } else { "full" }),
                 Err(e) => e,
@@ -73,6 +82,7 @@ pub fn script(v: &[u8]) -> String {
             let into: &str = (&l).into();
             if into != t { return "INCONSISTENT into_str".into(); }
             if let Some(e) = eq_only_self(&t, &|o| l == o) { return e; }
+            if let Some(e) = fmt_flags(&l) { return e; }
             text3(&t, l.to_string(), l == t.as_str()).map(|t| format!("OK {}", t)).unwrap_or_else(|e| e)
         }
         Err(e) => perr(e),
@@ -92,6 +102,7 @@ pub fn region(v: &[u8]) -> String {
             let into: &str = (&l).into();
             if into != t { return "INCONSISTENT into_str".into(); }
             if let Some(e) = eq_only_self(&t, &|o| l == o) { return e; }
+            if let Some(e) = fmt_flags(&l) { return e; }
             text3(&t, l.to_string(), l == t.as_str()).map(|t| format!("OK {}", t)).unwrap_or_else(|e| e)
         }
         Err(e) => perr(e),
@@ -109,6 +120,7 @@ pub fn variant(v: &[u8]) -> String {
         Ok(l) => {
             let t = l.as_str().to_string();
             if let Some(e) = eq_only_self(&t, &|o| l == o) { return e; }
+            if let Some(e) = fmt_flags(&l) { return e; }
             if let Some(e) = eq_only_self(&t, &|o| l == *o) { return e; }
             text3(&t, l.to_string(), l == t.as_str() && l == *t.as_str()).map(|t| format!("OK {}", t)).unwrap_or_else(|e| e)
         }
